@@ -1,11 +1,31 @@
 package gossipval
 
 import (
+	"context"
 	"fmt"
 	"time"
 
+	"github.com/protolambda/zrnt/eth2/beacon"
 	"github.com/protolambda/zrnt/eth2/beacon/common"
 )
+
+// CheckpointBlockRoot returns the root of the block at or before the given slot on the chain of the given block
+// (get_ancestor / get_checkpoint_block of the fork-choice spec), read from the history of the block's own post-state.
+func CheckpointBlockRoot(ctx context.Context, spec *common.Spec, blockRef beacon.ChainEntry, blockRoot common.Root, slot common.Slot) (common.Root, error) {
+	blockSlot := blockRef.Step().Slot()
+	if blockSlot <= slot {
+		// no later block on this chain up to the slot: the block is its own checkpoint block
+		return blockRoot, nil
+	}
+	if blockSlot-slot > spec.SLOTS_PER_HISTORICAL_ROOT {
+		return common.Root{}, fmt.Errorf("slot %d is too far back from block %s at slot %d", slot, blockRoot, blockSlot)
+	}
+	state, err := blockRef.State(ctx)
+	if err != nil {
+		return common.Root{}, err
+	}
+	return common.GetBlockRootAtSlot(spec, state, slot)
+}
 
 // CheckSlotSpan checks if the slot is within the span of slots, with MAXIMUM_GOSSIP_CLOCK_DISPARITY margin in time.
 func CheckSlotSpan(slotAfter func(delta time.Duration) common.Slot, slot common.Slot, span common.Slot) error {
